@@ -106,7 +106,7 @@ def check_tree(drv, el, dump, values, out, stats, origin):
         real = core.real_call(el, v)
         out.note_case({"element": dump, "value": case["values"][-1]}, True)
         stats["verdict-" + real["r"]] = stats.get("verdict-" + real["r"], 0) + 1
-        if not isinstance(v, core.NotPassed) and core.enc_val(v) != core.enc_val(vcopy):
+        if real.pop("input_altered", False) or (not isinstance(v, core.NotPassed) and core.enc_val(v) != core.enc_val(vcopy)):
             out.failures.append({"case": case, "what": "the input value was modified by validation", "finding": None})
         snap = statediff.snapshot(el)
         if snap != snap0:
